@@ -25,7 +25,7 @@
 #include "crypto/hash/gost3411-2012.h"
 /* T jobs compare against the table form of LPS over the library's own expanded table, which
  * job gost.tables proves entry by entry equal to the standard's pi / A (specs/gost3411_spec.h) */
-#if defined(VF_GOST_T) && !defined(GOST3411_2012_USE_SMALL_TABLES)
+#if defined(VF_GOST_T) && !defined(GOST3411_2012_USE_SMALL_TABLES) && !defined(VF_GOST_LPS_ABSTRACT)
 #define VF_GOST_USE_LIB_TABLE 1
 #define VF_GOST_LPS(out, in)	vf_gost_lps_tab(out, in)
 #endif
@@ -152,11 +152,18 @@ __CPROVER_assigns(__CPROVER_object_upto(dst, 64), __CPROVER_object_upto(ctx->sbu
 __CPROVER_ensures(vf_gost_xslp_post(VF_GOST_OLD8(a), VF_GOST_OLD8(b), dst))
 ;
 
+/* VF_T_OWNCTX: the harness owns the context object (concrete pointers to its members keep
+ * the verifier's field sensitivity; needed by the composition jobs) */
+#ifdef VF_T_OWNCTX
+#define VF_GOST_T_CTX_REQ(ctx)	__CPROVER_requires(__CPROVER_w_ok(ctx, sizeof(gost3411_2012_ctx_t)))
+#else
+#define VF_GOST_T_CTX_REQ(ctx)	__CPROVER_requires(__CPROVER_is_fresh(ctx, sizeof(gost3411_2012_ctx_t)))
+#endif
 #define VF_GOST_TN_CONTRACT(fn)								\
 static inline void									\
 fn(gost3411_2012_ctx_p ctx, const size_t block_size_bits, const uint8_t *blocks,	\
     const uint8_t *blocks_max)								\
-__CPROVER_requires(__CPROVER_is_fresh(ctx, sizeof(gost3411_2012_ctx_t)))		\
+VF_GOST_T_CTX_REQ(ctx)									\
 __CPROVER_requires(__CPROVER_r_ok(blocks, VF_T_NBLK * VF_GOST_B) && blocks_max == blocks + VF_T_NBLK * VF_GOST_B) \
 __CPROVER_requires(block_size_bits <= 512)						\
 __CPROVER_requires(vf_gost_snapshot(ctx))						\
@@ -171,7 +178,7 @@ __CPROVER_ensures(vf_gost_Tn_post(vf_gost_h0, vf_gost_n0, vf_gost_s0, block_size
 #define VF_GOST_T1_CONTRACT(fn)								\
 static inline void									\
 fn(gost3411_2012_ctx_p ctx, const uint64_t *block)					\
-__CPROVER_requires(__CPROVER_is_fresh(ctx, sizeof(gost3411_2012_ctx_t)))		\
+VF_GOST_T_CTX_REQ(ctx)									\
 __CPROVER_requires(__CPROVER_r_ok(block, VF_GOST_B))					\
 __CPROVER_requires(vf_gost_snapshot(ctx))						\
 __CPROVER_assigns(__CPROVER_object_upto(ctx->hash, sizeof(ctx->hash)))			\
